@@ -48,6 +48,24 @@ func (a *Auditor) onCommit(db *fakepg.DB, c *fakepg.Commit) {
 	a.mu.Lock()
 	defer a.mu.Unlock()
 	a.commits++
+	// a pair that starts at the head begins anew when its whole position history is gone
+	// (reorg of everything it had recorded): its first block is then the first block
+	// of the next position row (num - nblocks + 1)
+	for _, p := range a.w.Pairs {
+		if p.Start != 0 {
+			continue
+		}
+		key := p.Key()
+		for _, x := range c.Added {
+			if x.Table == "shovel.task_updates" && x.Row["src_name"] == p.Src.Name && x.Row["ig_name"] == p.Decl.Name {
+				if _, known := a.first[key]; !known {
+					if nb := numOf(x.Row["nblocks"]); nb > 0 && numOf(x.Row["num"])+1 >= nb {
+						a.first[key] = numOf(x.Row["num"]) + 1 - nb
+					}
+				}
+			}
+		}
+	}
 	a.audit(db.RowsLocked, fmt.Sprintf("after commit #%d (+%d -%d rows)", c.Seq, len(c.Added), len(c.Removed)))
 }
 
@@ -72,6 +90,9 @@ func (a *Auditor) audit(rowsOf func(string) []map[string]any, when string) {
 				a.fail("%s: %s has %d rows but no recorded position", when, key, len(stored))
 			}
 			a.indexed[key] = nil
+			if p.Start == 0 {
+				delete(a.first, key) // it will begin anew at the head
+			}
 			continue
 		}
 		// no row beyond the position
